@@ -69,12 +69,13 @@ structure St where
   aq : List QItem
   aqOff : Nat            -- applyQueue.dbOffset
   closed : Bool
+  down : Bool            -- OpenEngine failed after the last crash (the process could not come up)
 deriving DecidableEq, Repr
 
 def init (wait repl : Bool) (rest : List Rec) (len : Nat) : St :=
   { wait := wait, repl := repl, com := ⟨[], 0⟩, tx := ⟨[], 0⟩, dbo := 0, done := [], rest := rest, len := len, dur := 0,
     ci := 0, waitQ := [], ptx := false, acked := [], ackedW := [], hold := false, lc := false, q := false, aq := [],
-    aqOff := 0, closed := false }
+    aqOff := 0, closed := false, down := false }
 
 def pad4 (n : Nat) : Nat := (n + 3) / 4 * 4
 /-- fsbinlog.AddPadding(len(payload)); the harness' events are at least 12 bytes -/
@@ -258,7 +259,13 @@ def crashStep (s : St) (d : Nat) : St :=
     done := upTo s.com.off s.done,
     rest := upTo d (above s.com.off s.done ++ flat s.aq ++ s.rest),
     len := d, dur := s.dur, ci := 0, waitQ := [], ptx := false, acked := s.acked, ackedW := s.ackedW,
-    hold := false, lc := false, q := false, aq := [], aqOff := 0, closed := false }
+    hold := false, lc := false, q := false, aq := [], aqOff := 0, closed := false, down := false }
+
+/-- The same kill, but it hit the binlog writer inside write(2): the last file ends with a proper prefix of one more
+    record. On restart the reader stops at the last complete record, then fsbinlog's writer.initChunk refuses the file
+    ("current position in file is not equal file size"), binlog.Run fails and OpenEngine returns an error: a master
+    does not come up (known finding restart-failed-torn-tail). A replica opens no writer and starts normally. -/
+def tornStep (s : St) (d : Nat) : St := { crashStep s d with closed := true, down := true }
 
 /-- binlogWaitReady after ChangeRole(ready): a master applies what is still queued (no COMMIT) -/
 def readyStep (s : St) : St := if !s.repl && s.q then flushQ s else s
@@ -299,24 +306,17 @@ def step (s : St) : Op → St × String
   | .append l => if busy s || !l.all (fun x => decide (0 < x.2.2)) then (s, "bad-op") else (appendStep s l, "ok")
   | .hold b => ({ s with hold := b }, "ok")
   | .close => closeStep s
-  -- a torn tail (kill inside write(2)) is cut off by the binlog writer when it reopens the file (after the fix
-  -- fixes/C17-binlog-torn-tail.diff), so it makes no difference; `stepOld` below is the behaviour before the fix
-  | .crash d _ => if crashOK s d then (crashStep s d, s!"image={fmtDB s.com} start={s.com.off}") else (s, "bad-op")
+  | .crash d torn =>
+    if !crashOK s d then (s, "bad-op")
+    else if torn && !s.repl then (tornStep s d, "open-error")
+    else (crashStep s d, s!"image={fmtDB s.com} start={s.com.off}")
   | .ready => (readyStep s, "ok")
 
-/-- Before the fix: fsbinlog's writer.initChunk refused a last file that is longer than the position the reader reached
-    ("current position in file is not equal file size"), binlog.Run failed and OpenEngine returned an error: a master
-    engine stayed down after a kill that tore the last write. -/
-def stepOld (s : St) : Op → St × String
-  | .crash d true =>
-    if !crashOK s d then (s, "bad-op")
-    else if s.repl then (crashStep s d, s!"image={fmtDB s.com} start={s.com.off}")
-    else ({ crashStep s d with closed := true }, "open-error")
+/-- Documented alternative (NOT the code): fixes/C17-binlog-torn-tail.diff lets the writer cut the torn tail off, then a
+    torn tail makes no difference to the restart. The patch was not applied (silent truncation needs the maintainers). -/
+def stepFixed (s : St) : Op → St × String
+  | .crash d _ => if crashOK s d then (crashStep s d, s!"image={fmtDB s.com} start={s.com.off}") else (s, "bad-op")
   | op => step s op
-
-def runOld (s : St) : List Op → St
-  | [] => s
-  | op :: ops => runOld (stepOld s op).1 ops
 
 def run (s : St) : List Op → St
   | [] => s
